@@ -515,7 +515,7 @@ def check_case(ctx, reqs, case_index=None):
 
 def run(ctx):
     refhttp.selftest()
-    for i in ctx.cases(16000, 1600000):
+    for i in ctx.cases(16000, 600000):
         rng = ctx.case_rng(i)
         check_case(ctx, gen_case(rng), i)
 
